@@ -18,6 +18,38 @@
 // result, or with effects, into `List Eff`-valued term: every call statement
 // that is listed under "effectCalls" is emitted as an effect with its
 // (translated) arguments; see Eff in IceModel/Eff.lean.
+//
+// Extensions used by the gather / address / selector / mux / framing specs (none of them
+// changes the output for a spec that does not use it):
+//   - slices of basic types are `List T`; `len(xs) == 0` / `!= 0` / `> 0` of such a list is
+//     (non-)emptiness, any other `len(xs)` is `Int64.ofNat xs.length`; slice literals;
+//   - the search loop `for _, x := range xs { if c { return v } }` is
+//     `if xs.any (fun x => c) then v else <rest>` (v must not depend on x);
+//   - "binds": an assignment statement recognised by (a prefix of) its printed text whose
+//     right side is an uninterpreted call binds the listed left-side variables to
+//     parameters; a variable bound with "nil": true stands for its own nil test
+//     (`v != nil`); a bind that matches no statement is a translation failure, so an
+//     empty "vars" list just requires the statement to exist;
+//   - an assignment to a function parameter that is a spec parameter under its own name
+//     shadows it (`addr = addr.Unmap()`); parameter types are free text, so a type
+//     parameter `(α : Type)` and function-valued parameters model an opaque type;
+//   - `&^`, `switch init; {…}`, Int64 → UIntN conversions;
+//   - effect mode: several results (a tuple); `nil` as an effect argument; an effect call
+//     as the condition of an `if` (the call is emitted, its result is the parameter named
+//     by "result"); an effect assignment to a field that is itself a parameter shadows the
+//     parameter (later reads see the assigned value);
+//   - "effectStmts": a statement recognised by "prefix" (and "contains") is one effect,
+//     e.g. a `go` statement; with "body": true a `for … range` loop becomes ONE iteration
+//     of its body between the effects "for:<name>" and "end:<name>" (`continue` jumps to
+//     the end marker); with "exit" / "exitRet" / "sets" a loop whose exact text is pinned
+//     by "contains" is cut out as one effect that may return;
+//   - "loop": true (effect mode): the body of the function is one `for { … }` loop; ONE
+//     iteration is translated to `List Eff × Option R` — `some r` = the iteration returns
+//     r, `none` = it goes round again (`continue` / falls off the body).
+//
+// Atoms are matched by source text: two occurrences of one text are one parameter.  A
+// value that changes between two reads must be re-bound ("binds", an effect assignment to
+// a parameter) or the function does not fit.
 package main
 
 import (
@@ -56,6 +88,37 @@ type EffectSpec struct {
 	Name string   `json:"name"` // label
 	Args []int    `json:"args"` // indices of call arguments to translate and keep (must be translatable to Nat via toNat or Bool)
 	Kind []string `json:"kind"` // optional
+	// Result: Lean expression (a Bool parameter) standing for the call's result when the
+	// call is the condition of an `if`
+	Result string `json:"result"`
+}
+
+type BindVar struct {
+	Go   string `json:"go"`   // name of the left-side variable
+	Lean string `json:"lean"` // Lean expression it is bound to
+	Nil  bool   `json:"nil"`  // Lean is a Bool standing for `v != nil`
+}
+
+type BindSpec struct {
+	Go   string    `json:"go"` // prefix of the printed text of the assignment statement
+	Vars []BindVar `json:"vars"`
+}
+
+type StmtEffSpec struct {
+	Prefix string `json:"prefix"` // prefix of the printed text of the statement
+	Name   string `json:"name"`   // effect label
+	// Body: the statement is a `for … range` loop; ONE iteration of its body is translated
+	// between the effects "for:<name>" and "end:<name>" (what the body reads of the element
+	// are parameters like everything else)
+	Body bool `json:"body"`
+	// Contains: the statement's text must also contain this (e.g. the call a `go func() {…}()` makes)
+	Contains string `json:"contains"`
+	// Exit / ExitRet / Sets: the statement (a loop cut out as ONE effect, its text pinned by
+	// prefix + contains) may leave the function: `if Exit then return ExitRet`; otherwise the
+	// variables it assigns are the parameters named in Sets
+	Exit    string    `json:"exit"`
+	ExitRet string    `json:"exitRet"`
+	Sets    []BindVar `json:"sets"`
 }
 
 type FuncSpec struct {
@@ -71,6 +134,10 @@ type FuncSpec struct {
 	Assigns []string `json:"effectAssigns"`
 	// Ignore: statements whose printed text starts with one of these prefixes are skipped (logging)
 	Ignore []string `json:"ignore"`
+	// Binds / EffectStmts / Loop: see the header comment
+	Binds       []BindSpec    `json:"binds"`
+	EffectStmts []StmtEffSpec `json:"effectStmts"`
+	Loop        bool          `json:"loop"`
 	// Site: translate only the body of the n-th (0-based) statement matching the prefix
 	Note string `json:"note"`
 }
@@ -97,6 +164,79 @@ type tr struct {
 	assigns map[string]bool
 	// effect mode for a function WITH a result: terms have type `List Eff × R`
 	effRes bool
+	// locals bound by "binds" with nil: true (the Lean expression is the variable's nil test)
+	nilVar map[types.Object]bool
+	// loop mode: results are wrapped in `some`, `continue` is `none`
+	loop   bool
+	inLoop bool
+	// binds / effectStmts that matched a statement (one that never does is a failure:
+	// the statement the spec relies on is gone)
+	usedBind map[int]bool
+	usedStmt map[int]bool
+	// contK: what `continue` means here (loop mode: go round again; inside the one translated
+	// iteration of an effectStmts "body" loop: the end marker and what follows the loop)
+	contK func() string
+	// paramOf: go text of a spec parameter (not a macro) -> its Lean name
+	paramOf map[string]string
+}
+
+// retry renders "this iteration goes round again" (loop mode).
+func (t *tr) retry() string { return "([], none)" }
+
+func (t *tr) snapshot() (map[types.Object]string, map[types.Object]bool) {
+	l := make(map[types.Object]string, len(t.locals))
+	for k, v := range t.locals {
+		l[k] = v
+	}
+	n := make(map[types.Object]bool, len(t.nilVar))
+	for k, v := range t.nilVar {
+		n[k] = v
+	}
+	return l, n
+}
+
+func (t *tr) isNil(e ast.Expr) bool {
+	id, ok := e.(*ast.Ident)
+	if !ok {
+		return false
+	}
+	_, isnil := t.info.Uses[id].(*types.Nil)
+	return isnil
+}
+
+// lenOfList: e is `len(xs)` (not an atom) of a list-typed xs → xs
+func (t *tr) lenOfList(e ast.Expr) ast.Expr {
+	if _, isAtom := t.atoms[t.text(e)]; isAtom {
+		return nil
+	}
+	call, ok := e.(*ast.CallExpr)
+	if !ok || len(call.Args) != 1 {
+		return nil
+	}
+	id, ok := call.Fun.(*ast.Ident)
+	if !ok {
+		return nil
+	}
+	if b, ok := t.info.Uses[id].(*types.Builtin); !ok || b.Name() != "len" {
+		return nil
+	}
+	if _, ok := t.info.TypeOf(call.Args[0]).Underlying().(*types.Slice); !ok {
+		return nil
+	}
+	return call.Args[0]
+}
+
+// nilTest: `v != nil` of a variable bound by "binds" with nil: true ("" = e is not one)
+func (t *tr) nilTest(e ast.Expr) string {
+	id, ok := e.(*ast.Ident)
+	if !ok {
+		return ""
+	}
+	obj := t.info.Uses[id]
+	if obj != nil && t.nilVar[obj] {
+		return t.locals[obj]
+	}
+	return ""
 }
 
 // cons renders "emit effect e, then rest" for the current mode.
@@ -137,6 +277,10 @@ func leanType(ty types.Type) string {
 			return "Int8"
 		case types.String, types.UntypedString:
 			return "String"
+		}
+	case *types.Slice:
+		if _, ok := u.Elem().Underlying().(*types.Basic); ok {
+			return "List " + leanType(u.Elem())
 		}
 	}
 	failf("unsupported type %s", ty.String())
@@ -195,8 +339,33 @@ func (t *tr) expr(e ast.Expr) string {
 		}
 		failf("unsupported unary %s", x.Op)
 	case *ast.BinaryExpr:
+		if x.Op == token.EQL || x.Op == token.NEQ {
+			v := ""
+			if t.isNil(x.Y) {
+				v = t.nilTest(x.X)
+			} else if t.isNil(x.X) {
+				v = t.nilTest(x.Y)
+			}
+			if v != "" {
+				if x.Op == token.NEQ {
+					return v
+				}
+				return "(!" + v + ")"
+			}
+		}
+		// `len(xs) == 0` / `!= 0` / `> 0` of a list: emptiness (a Go length is never negative)
+		if xs := t.lenOfList(x.X); xs != nil && (x.Op == token.EQL || x.Op == token.NEQ || x.Op == token.GTR) {
+			if tv := t.info.Types[x.Y]; tv.Value != nil && constant.Sign(tv.Value) == 0 {
+				if x.Op == token.EQL {
+					return t.expr(xs) + ".isEmpty"
+				}
+				return "(!" + t.expr(xs) + ".isEmpty)"
+			}
+		}
 		l, r := t.expr(x.X), t.expr(x.Y)
 		switch x.Op {
+		case token.AND_NOT:
+			return "(" + l + " &&& (~~~" + r + "))"
 		case token.ADD:
 			if leanType(t.info.TypeOf(x)) == "String" {
 				return "(" + l + " ++ " + r + ")"
@@ -269,6 +438,9 @@ func (t *tr) expr(e ast.Expr) string {
 			if from == "Int64" && to == "UInt64" {
 				return "(" + a + ".toUInt64)"
 			}
+			if from == "Int64" && strings.HasPrefix(to, "UInt") {
+				return "(" + a + ".toUInt64.to" + to + ")"
+			}
 			if from == "UInt64" && to == "Int64" {
 				return "(" + a + ".toInt64)"
 			}
@@ -283,6 +455,14 @@ func (t *tr) expr(e ast.Expr) string {
 				failf("func literal call with args: %s", t.text(x))
 			}
 			return "(" + t.block(fl.Body.List, func() string { failf("closure falls off its end"); return "" }) + ")"
+		}
+		// len of a list
+		if id, ok := x.Fun.(*ast.Ident); ok && len(x.Args) == 1 {
+			if b, ok := t.info.Uses[id].(*types.Builtin); ok && b.Name() == "len" {
+				if strings.HasPrefix(leanType(t.info.TypeOf(x.Args[0])), "List ") {
+					return "(Int64.ofNat " + t.expr(x.Args[0]) + ".length)"
+				}
+			}
 		}
 		// call of a local closure
 		if id, ok := x.Fun.(*ast.Ident); ok {
@@ -322,6 +502,18 @@ func (t *tr) expr(e ast.Expr) string {
 		failf("unsupported call %s", t.text(x))
 	case *ast.FuncLit:
 		return t.lambda(x)
+	case *ast.CompositeLit:
+		lt := leanType(t.info.TypeOf(x))
+		if strings.HasPrefix(lt, "List ") {
+			parts := []string{}
+			for _, el := range x.Elts {
+				if _, kv := el.(*ast.KeyValueExpr); kv {
+					failf("keyed slice literal %s", t.text(x))
+				}
+				parts = append(parts, t.expr(el))
+			}
+			return "([" + strings.Join(parts, ", ") + "] : " + lt + ")"
+		}
 	}
 	failf("unsupported expression %s (%T)", t.text(e), e)
 	return ""
@@ -365,8 +557,74 @@ func (t *tr) block(list []ast.Stmt, k func() string) string {
 			return next()
 		}
 	}
+	if t.spec.Effects {
+		for i, es := range t.spec.EffectStmts {
+			if strings.HasPrefix(t.text(s), es.Prefix) && strings.Contains(t.text(s), es.Contains) {
+				t.usedStmt[i] = true
+				if es.Body {
+					rs, ok := s.(*ast.RangeStmt)
+					if !ok {
+						failf("effectStmts %q: body of a statement that is not a range loop", es.Prefix)
+					}
+					end := fmt.Sprintf("(Eff.call %q [])", "end:"+es.Name)
+					saved := t.contK
+					after := func() string {
+						prev := t.contK
+						t.contK = saved
+						r := t.cons(end, next())
+						t.contK = prev
+						return r
+					}
+					t.contK = after
+					body := t.block(rs.Body.List, after)
+					t.contK = saved
+					return t.cons(fmt.Sprintf("(Eff.call %q [])", "for:"+es.Name), body)
+				}
+				if es.Exit != "" || len(es.Sets) > 0 {
+					sl, sn := t.snapshot()
+					for _, v := range es.Sets {
+						var obj types.Object
+						ast.Inspect(s, func(n ast.Node) bool {
+							if id, ok := n.(*ast.Ident); ok && id.Name == v.Go && obj == nil {
+								if o := t.info.Uses[id]; o != nil {
+									obj = o
+								} else if o := t.info.Defs[id]; o != nil {
+									obj = o
+								}
+							}
+							return obj == nil
+						})
+						if obj == nil {
+							failf("effectStmts %q: %s does not occur in the statement", es.Prefix, v.Go)
+						}
+						t.locals[obj] = v.Lean
+					}
+					rest := next()
+					t.locals, t.nilVar = sl, sn
+					if es.Exit != "" {
+						rest = "(if " + es.Exit + " then ([], " + es.ExitRet + ") else " + rest + ")"
+					}
+					return t.cons(fmt.Sprintf("(Eff.call %q [])", es.Name), rest)
+				}
+				return t.cons(fmt.Sprintf("(Eff.call %q [])", es.Name), next())
+			}
+		}
+	}
 	switch x := s.(type) {
 	case *ast.ReturnStmt:
+		if t.loop {
+			switch len(x.Results) {
+			case 0:
+				return "([], some ())"
+			case 1:
+				return "([], some " + t.expr(x.Results[0]) + ")"
+			}
+			parts := []string{}
+			for _, r := range x.Results {
+				parts = append(parts, t.expr(r))
+			}
+			return "([], some (" + strings.Join(parts, ", ") + "))"
+		}
 		if t.spec.Effects && !t.effRes {
 			if len(x.Results) == 0 {
 				return "[]"
@@ -374,10 +632,17 @@ func (t *tr) block(list []ast.Stmt, k func() string) string {
 			failf("effect mode: return with values in a function without result")
 		}
 		if t.effRes {
-			if len(x.Results) != 1 {
-				failf("effect mode: exactly one result supported")
+			if len(x.Results) == 0 {
+				failf("effect mode: return without values in a function with results")
 			}
-			return "([], " + t.expr(x.Results[0]) + ")"
+			if len(x.Results) == 1 {
+				return "([], " + t.expr(x.Results[0]) + ")"
+			}
+			parts := []string{}
+			for _, r := range x.Results {
+				parts = append(parts, t.expr(r))
+			}
+			return "([], (" + strings.Join(parts, ", ") + "))"
 		}
 		if len(x.Results) == 1 {
 			return t.expr(x.Results[0])
@@ -395,8 +660,38 @@ func (t *tr) block(list []ast.Stmt, k func() string) string {
 		if x.Init != nil {
 			return t.block(append([]ast.Stmt{x.Init, &ast.IfStmt{Cond: x.Cond, Body: x.Body, Else: x.Else}}, rest...), k)
 		}
-		c := t.expr(x.Cond)
+		// an effect call as the condition: the call is an effect, its result a parameter
+		var pre string
+		c := ""
+		if t.spec.Effects {
+			if _, isAtom := t.atoms[t.text(x.Cond)]; !isAtom {
+				cond, neg := x.Cond, false
+				if u, ok := cond.(*ast.UnaryExpr); ok && u.Op == token.NOT {
+					cond, neg = u.X, true
+				}
+				if call, ok := cond.(*ast.CallExpr); ok {
+					if _, isAtom := t.atoms[t.text(call)]; !isAtom {
+						if es, ok := t.effects[t.text(call.Fun)]; ok && es.Result != "" {
+							args := []string{}
+							for _, i := range es.Args {
+								args = append(args, t.toVal(call.Args[i]))
+							}
+							pre = fmt.Sprintf("(Eff.call %q [%s])", es.Name, strings.Join(args, ", "))
+							c = es.Result
+							if neg {
+								c = "(!" + c + ")"
+							}
+						}
+					}
+				}
+			}
+		}
+		if pre == "" {
+			c = t.expr(x.Cond)
+		}
+		sl, sn := t.snapshot()
 		th := t.block(x.Body.List, next)
+		t.locals, t.nilVar = sl, sn
 		var el string
 		switch e := x.Else.(type) {
 		case nil:
@@ -405,6 +700,9 @@ func (t *tr) block(list []ast.Stmt, k func() string) string {
 			el = t.block(e.List, next)
 		case *ast.IfStmt:
 			el = t.block([]ast.Stmt{e}, next)
+		}
+		if pre != "" {
+			return t.cons(pre, "(if "+c+" then "+th+" else "+el+")")
 		}
 		return "(if " + c + " then " + th + " else " + el + ")"
 	case *ast.DeclStmt:
@@ -433,11 +731,48 @@ func (t *tr) block(list []ast.Stmt, k func() string) string {
 		}
 		return "(" + b.String() + next() + ")"
 	case *ast.AssignStmt:
+		for i, b := range t.spec.Binds {
+			if !strings.HasPrefix(t.text(x), b.Go) {
+				continue
+			}
+			t.usedBind[i] = true
+			for _, v := range b.Vars {
+				found := false
+				for _, lhs := range x.Lhs {
+					id, ok := lhs.(*ast.Ident)
+					if !ok || id.Name != v.Go {
+						continue
+					}
+					obj := t.info.Defs[id]
+					if obj == nil {
+						obj = t.info.Uses[id]
+					}
+					t.locals[obj] = v.Lean
+					if v.Nil {
+						t.nilVar[obj] = true
+					} else {
+						delete(t.nilVar, obj)
+					}
+					found = true
+				}
+				if !found {
+					failf("bind: %s is not assigned by %s", v.Go, t.text(x))
+				}
+			}
+			return next()
+		}
 		if len(x.Lhs) != 1 || len(x.Rhs) != 1 {
 			failf("unsupported multi-assign %s", t.text(x))
 		}
 		if t.spec.Effects && t.assigns[t.text(x.Lhs[0])] {
-			return t.cons(fmt.Sprintf("(Eff.set %q (%s))", t.text(x.Lhs[0]), t.toVal(x.Rhs[0])), next())
+			lhs := t.text(x.Lhs[0])
+			eff := fmt.Sprintf("(Eff.set %q (%s))", lhs, t.toVal(x.Rhs[0]))
+			// the assigned field is itself a parameter: later reads see the assigned value
+			if pn, isParam := t.paramOf[lhs]; isParam {
+				v := t.expr(x.Rhs[0])
+				return t.cons(eff, "(let "+pn+" : "+t.atomTy[lhs]+" := "+v+"\n"+next()+")")
+			}
+			return t.cons(eff, next())
 		}
 		id, ok := x.Lhs[0].(*ast.Ident)
 		if !ok {
@@ -449,12 +784,17 @@ func (t *tr) block(list []ast.Stmt, k func() string) string {
 			return "(let " + id.Name + " := " + lam + "\n" + next() + ")"
 		}
 		var obj types.Object
+		paramTy := ""
 		if x.Tok == token.DEFINE {
 			obj = t.info.Defs[id]
 		} else {
 			obj = t.info.Uses[id]
 			if _, ok := t.locals[obj]; !ok {
-				failf("assignment to non-local %s", t.text(x))
+				// a function parameter that is a spec parameter under its own name is shadowed like a local
+				if a, isAtom := t.atoms[id.Name]; !isAtom || a != id.Name || x.Tok != token.ASSIGN {
+					failf("assignment to non-local %s", t.text(x))
+				}
+				paramTy = t.atomTy[id.Name]
 			}
 		}
 		var v string
@@ -474,7 +814,10 @@ func (t *tr) block(list []ast.Stmt, k func() string) string {
 			t.info.Types[be] = types.TypeAndValue{Type: obj.Type()}
 			v = t.expr(be)
 		}
-		lt := leanType(obj.Type())
+		lt := paramTy
+		if lt == "" {
+			lt = leanType(obj.Type())
+		}
 		t.locals[obj] = id.Name
 		return "(let " + id.Name + " : " + lt + " := " + v + "\n" + next() + ")"
 	case *ast.IncDecStmt:
@@ -491,7 +834,7 @@ func (t *tr) block(list []ast.Stmt, k func() string) string {
 		return "(let " + id.Name + " : " + lt + " := " + id.Name + op + "(1 : " + lt + ")\n" + next() + ")"
 	case *ast.SwitchStmt:
 		if x.Init != nil {
-			failf("switch with init")
+			return t.block(append([]ast.Stmt{x.Init, &ast.SwitchStmt{Tag: x.Tag, Body: x.Body}}, rest...), k)
 		}
 		var tag string
 		if x.Tag != nil {
@@ -529,9 +872,50 @@ func (t *tr) block(list []ast.Stmt, k func() string) string {
 					conds = append(conds, t.expr(v))
 				}
 			}
-			return "(if " + strings.Join(conds, " || ") + " then " + t.block(cc.Body, next) + " else " + build(i+1) + ")"
+			sl, sn := t.snapshot()
+			body := t.block(cc.Body, next)
+			t.locals, t.nilVar = sl, sn
+			return "(if " + strings.Join(conds, " || ") + " then " + body + " else " + build(i+1) + ")"
 		}
 		return build(0)
+	case *ast.RangeStmt:
+		// the search loop `for _, v := range xs { if c { return r } }`
+		vid, _ := x.Value.(*ast.Ident)
+		kid, _ := x.Key.(*ast.Ident)
+		if x.Tok != token.DEFINE || vid == nil || kid == nil || kid.Name != "_" || len(x.Body.List) != 1 {
+			failf("unsupported range loop %s", t.text(x))
+		}
+		ifs, ok := x.Body.List[0].(*ast.IfStmt)
+		if !ok || ifs.Init != nil || ifs.Else != nil || len(ifs.Body.List) == 0 {
+			failf("unsupported range loop %s", t.text(x))
+		}
+		if _, ok := ifs.Body.List[len(ifs.Body.List)-1].(*ast.ReturnStmt); !ok {
+			failf("unsupported range loop %s", t.text(x))
+		}
+		xs := t.expr(x.X)
+		sl, sn := t.snapshot()
+		t.locals[t.info.Defs[vid]] = vid.Name
+		c := t.expr(ifs.Cond)
+		t.locals, t.nilVar = sl, sn
+		// the returned value is translated outside the scope of v: it must not depend on it
+		th := t.block(ifs.Body.List, func() string { failf("search loop: body does not return"); return "" })
+		t.locals, t.nilVar = sl, sn
+		return "(if (" + xs + ".any (fun " + vid.Name + " => " + c + ")) then " + th + " else " + next() + ")"
+	case *ast.ForStmt:
+		if !t.loop || x.Init != nil || x.Cond != nil || x.Post != nil || len(rest) != 0 || t.inLoop {
+			failf("unsupported loop %s", strings.SplitN(t.text(x), "\n", 2)[0])
+		}
+		t.inLoop = true
+		t.contK = t.retry
+		return t.block(x.Body.List, t.retry)
+	case *ast.BranchStmt:
+		if t.contK != nil && x.Tok == token.CONTINUE && x.Label == nil {
+			k := t.contK
+			r := k()
+			t.contK = k
+			return r
+		}
+		failf("unsupported statement %s", t.text(x))
 	case *ast.ExprStmt:
 		if t.spec.Effects {
 			if call, ok := x.X.(*ast.CallExpr); ok {
@@ -552,6 +936,9 @@ func (t *tr) block(list []ast.Stmt, k func() string) string {
 
 // toVal renders an expression as a Val (Nat-coded) for effect arguments.
 func (t *tr) toVal(e ast.Expr) string {
+	if _, isAtom := t.atoms[t.text(e)]; !isAtom && t.isNil(e) {
+		return "(Val.s \"nil\")"
+	}
 	var lt string
 	if ty, ok := t.atomTy[t.text(e)]; ok && ty != "" {
 		lt = ty
@@ -710,12 +1097,15 @@ func main() {
 			si.File, _ = filepath.Rel(*repo, pos.Filename)
 			si.Line = pos.Line
 			t := &tr{fset: l.p.Fset, info: l.p.TypesInfo, spec: fs, atoms: map[string]string{}, atomTy: map[string]string{},
-				locals: map[types.Object]string{}, callees: callees, effects: map[string]*EffectSpec{}, assigns: map[string]bool{}}
+				locals: map[types.Object]string{}, callees: callees, effects: map[string]*EffectSpec{}, assigns: map[string]bool{},
+				nilVar: map[types.Object]bool{}, loop: fs.Effects && fs.Loop, usedBind: map[int]bool{}, usedStmt: map[int]bool{}}
 			src := t.text(l.fd)
 			si.SHA256 = fmt.Sprintf("%x", sha256.Sum256([]byte(src)))
+			t.paramOf = map[string]string{}
 			for _, p := range fs.Params {
 				t.atoms[p.Go] = p.Lean
 				t.atomTy[p.Go] = p.Type
+				t.paramOf[p.Go] = p.Lean
 			}
 			for _, mc := range fs.Macros {
 				t.atoms[mc.Go] = mc.Expr
@@ -727,7 +1117,7 @@ func main() {
 			for _, a := range fs.Assigns {
 				t.assigns[a] = true
 			}
-			t.effRes = fs.Effects && l.fd.Type.Results != nil && len(l.fd.Type.Results.List) == 1
+			t.effRes = fs.Effects && (fs.Loop || (l.fd.Type.Results != nil && len(l.fd.Type.Results.List) >= 1))
 			var body string
 			func() {
 				defer func() {
@@ -740,12 +1130,25 @@ func main() {
 					}
 				}()
 				body = t.block(l.fd.Body.List, func() string {
+					if t.loop {
+						failf("loop mode: the body is not one `for { … }` loop")
+					}
 					if fs.Effects {
 						return "[]"
 					}
 					failf("function falls off its end")
 					return ""
 				})
+				for i, bd := range fs.Binds {
+					if !t.usedBind[i] {
+						failf("bind: no statement %q", bd.Go)
+					}
+				}
+				for i, es := range fs.EffectStmts {
+					if !t.usedStmt[i] {
+						failf("effectStmts: no statement %q", es.Prefix)
+					}
+				}
 			}()
 			sites = append(sites, si)
 			if si.Error != "" {
@@ -759,20 +1162,25 @@ func main() {
 			}
 			if ret == "" {
 				res := l.fd.Type.Results
-				if res == nil || len(res.List) != 1 {
+				if t.loop && (res == nil || len(res.List) == 0) {
+					ret = "Unit"
+				} else if res == nil || len(res.List) != 1 {
 					fmt.Fprintf(&b, "-- TRANSLATION FAILURE %s: cannot derive result type\n\n", fs.Lean)
 					failed++
 					continue
-				}
-				func() {
-					defer func() {
-						if r := recover(); r != nil {
-							si.Error = fmt.Sprint(r)
-						}
+				} else {
+					func() {
+						defer func() {
+							if r := recover(); r != nil {
+								si.Error = fmt.Sprint(r)
+							}
+						}()
+						ret = leanType(l.p.TypesInfo.TypeOf(res.List[0].Type))
 					}()
-					ret = leanType(l.p.TypesInfo.TypeOf(res.List[0].Type))
-				}()
-				if t.effRes {
+				}
+				if t.loop {
+					ret = "List Eff × Option " + ret
+				} else if t.effRes {
 					ret = "List Eff × " + ret
 				}
 			}
